@@ -199,7 +199,7 @@ quotedString = pp.QuotedString(
     '"', unquoteResults=True, convertWhitespaceEscapes=False
 ) | pp.QuotedString("'", unquoteResults=True, convertWhitespaceEscapes=False)
 
-var = l("@state") | l("@name") | pp.Word(pp.alphas)
+var = l("@state") | l("@name") | pp.Word(pp.alphas, pp.alphanums + "_")
 var.setParseAction(VarExpr)
 
 regexExpr = var + tilde + quotedString
